@@ -229,6 +229,60 @@ pub fn run(args: &Args) -> i32 {
         }
         sub.insert("windows_around_pow2_and_integer_limits".into(), json!({"windows": 254 + 4, "evaluations": nwin}));
     }
+    // whole seconds at machine-integer and decimal thresholds: n = s x 1e9 - w3 ..= s x 1e9 + w3 for s = +-2^k, +-10^k
+    {
+        let w3: i128 = if thorough { 1 << 12 } else { 1 << 9 };
+        let mut secs: Vec<i128> = vec![];
+        for k in 0..70u32 {
+            secs.push(1i128 << k);
+            secs.push(-(1i128 << k));
+        }
+        let mut p = 10i128;
+        while p < (1i128 << 70) {
+            secs.push(p);
+            secs.push(-p);
+            p *= 10;
+        }
+        let mut n = 0u64;
+        for s in secs {
+            let t = sweep_range("sec_threshold", s * G - w3, s * G + w3, 1, &rec, &ltts);
+            n += t.evals;
+            total = total.merge(t);
+        }
+        rec.sub.lock().unwrap().remove("sec_threshold");
+        rec.sub("windows_around_seconds_pow2_pow10", json!({"windows": 2 * 70 + 2 * 21, "evaluations": n}));
+    }
+    // a lattice over the whole success range (about +-6.78e25): step chosen odd and not a multiple of 1e9 so that the
+    // nanosecond part runs through many residues
+    {
+        let lo = MIN_UNIX_TIME as i128 * G;
+        let hi = (MAX_UNIX_TIME as i128 + 1) * G;
+        let points: i128 = if thorough { 50_000_000 } else { 2_000_000 };
+        let step = (hi - lo) / points + 123_456_791;
+        let chunks: Vec<i128> = (0..1024).collect();
+        let t = chunks
+            .par_iter()
+            .map(|&c| {
+                let mut tl = Tally::default();
+                let per = points / 1024 + 1;
+                for j in c * per..((c + 1) * per).min(points) {
+                    let n = lo + j * step;
+                    if n >= hi {
+                        break;
+                    }
+                    tl.evals += 1;
+                    match guard(|| check_n(n, true, &ltts)) {
+                        Ok(Ok(d)) => tl.digest = tl.digest.wrapping_add(d),
+                        Ok(Err((e, g))) => rec.violation("lattice", json!({"kind":"n","n":n.to_string()}), e, g),
+                        Err(m) => rec.violation("lattice", json!({"kind":"n","n":n.to_string()}), json!("no panic"), json!(m)),
+                    }
+                }
+                tl
+            })
+            .reduce(Tally::default, Tally::merge);
+        rec.sub("lattice_over_success_range", json!({"points": t.evals, "step": step.to_string()}));
+        total = total.merge(t);
+    }
     total = total.merge(sweep_zone_lookups(&rec));
     total = total.merge(sweep_range("i128_min", i128::MIN, i128::MIN + w, 1, &rec, &ltts));
     total = total.merge(sweep_range("i128_max", i128::MAX - w, i128::MAX, 1, &rec, &ltts));
